@@ -10,8 +10,8 @@ CHECKS = {
          "For every admissible triple with degrees <= 3 (setup; <= 5 in thorough) the kernel certifies generator-invariance, unit norm, vanishing imaginary part and the cyclic/transposition symmetries of the exact table, and Lean theorems lift this to invariance under EVERY rotation D(alpha,beta,gamma) and equivariance of the contraction for all inputs. The table is tied to the code by comparing every entry of every triple up to l=11 (1e-14) each run; the copy-on-return clause by seeded call/mutate/build histories.",
          "Trusted: Lean kernel, Mathlib, torch.matrix_exp = exp, float rounding of the tables (<=1e-14 measured per run). Beyond the kernel range the same exact decision procedure is run by the Lean interpreter (evidence only). Uniqueness of the invariant tensor is mathematics independent of the code.", "6 C04"),
  "C05": ("proof", "A", "translator (Python AST -> Lean straight-line program, regenerated every run) + symbolic execution in the kernel + Lean theorems over R (soundness of symbolic execution, recurrence induction using the Clebsch-Gordan certificates)",
-         "The source text of _spherical_harmonics is translated on every run; the kernel re-decides homogeneity, the Unsoeld identity, harmonicity and the CG recurrence for the regenerated polynomials (degrees <= 8 at setup/quick, <= 11 thorough) and Lean theorems give: equivariance under every rotation, homogeneity, parity and the three norms for ALL real x. Block selection, normalize flag, x=0, module/functional/scripted and angular forms are checked on the real code.",
-         "Trusted: the syntactic translator (validated numerically at rational points each run), Lean kernel, Mathlib. Degrees 9..12 in the quick tier: exact decision procedures run by the interpreter (evidence). Angular/Legendre forms, TorchScript: numeric comparison only.", "6 C05"),
+         "The source text of _spherical_harmonics is translated on every run; the kernel re-decides homogeneity, the Unsoeld identity, harmonicity and the CG recurrence for the regenerated polynomials (degrees <= 8 at setup/quick, <= 11 thorough) and Lean theorems give: equivariance under every rotation, homogeneity, parity and the three norms for ALL real x. The angular form: a second translator (T5, FX graph of o3.Legendre -> exact table) and kernel certificates per degree give, for ALL angles (also beta outside [0, pi]), spherical_harmonics_alpha_beta = spherical_harmonics o angles_to_xyz in the three normalisations (Props/C11Ang.lean, l <= 8; <= 11 thorough); the Float instance of that model runs next to the real function. Block selection, normalize flag, x=0, module/functional/scripted are checked on the real code.",
+         "Trusted: the syntactic translator (validated numerically at rational points each run), Lean kernel, Mathlib. Degrees 9..12 in the quick tier: exact decision procedures run by the interpreter (evidence). Translator T5 and its lifting of float coefficients are trusted (validated against the running o3.Legendre each run). TorchScript: numeric comparison only.", "6 C05"),
  "C06": ("proof", "B", "Lean 4 model of Irrep/Irreps with theorems by induction for all values + exact line-protocol correspondence (exhaustive small scope + seeded large + malformed strings)",
          "39 theorems for all Irreps values (parse/print round trip, bookkeeping identities, simplify/sort/regroup preserve the block list up to the reported permutation, triangle rule) and exact differential comparison of every operation with the real classes.",
          "Trusted: Lean kernel; the model is hand-written and tied by exact correspondence. The matrix-level statement is made at block-list level (D(Irreps) = direct sum over blocks is C03).", "6 C06"),
@@ -28,8 +28,8 @@ CHECKS = {
          "Theorems (all histories): get returns a copy, captured options never change, helpers restore defaults on every exit path (for the try/finally model that the fixed code follows; the harness detects which model the tree follows), setstate∘getstate. TorchScript/pickle clauses have no Lean model: differential stream over module families.",
          "The runtime clauses (TorchScript, pickle, torch.save, deepcopy) are outside any theorem: level `other`. Six compile/pickle defects are recorded as known findings.", "6 C14"),
  "C16": ("proof", "C", "scalar-generic Lean model of soft_unit_step / soft_one_hot_linspace / normalize2mom (theorems over R incl. Mathlib's expNegInvGlue, executed at Float) + boundary-targeted correspondence",
-         "soft_unit_step = expNegInvGlue, C-infinity, derivative = the coded backward everywhere; centres, exact support with cutoff, cosine sum of squares = 1, Fourier closed forms; Float model vs torch at ends/centres ±1ulp.",
-         "Trusted: Lean kernel, Mathlib. Numeric range bounds for gaussian/smooth_finite: partial (one-sided theorem + dense grid). normalize2mom second moment: statistical, quadrature check only.", "6 C16"),
+         "soft_unit_step = expNegInvGlue, C-infinity, derivative = the coded backward everywhere; centres, exact support with cutoff, cosine sum of squares = 1, Fourier closed forms and upper bound, gaussian sum of squares within (0.4, 2) (upper bound for every x: two geometric series); Float model vs torch at ends/centres ±1ulp.",
+         "Trusted: Lean kernel, Mathlib. Numeric range bounds: proved for cosine (=1), gaussian (both) and fourier (upper); smooth_finite and the fourier lower bound: dense grid on the real code only (partial). normalize2mom second moment: statistical, quadrature check only.", "6 C16"),
  "C17": ("proof", "B", "Lean model of perm.py/_reduce.py with theorems for all n (bijection with Equiv.Perm, sign = Mathlib's sign, germinate = generated subgroup, reduce_permutation orthonormal complete basis) + exhaustive correspondence n<=6",
          "All group-theoretic clauses proved for every n (not only n<=6); reduce_permutation rows: disjoint supports, invariance, completeness for all formulas and dims. Float linear-algebra helpers: oracle checks on the real code only.",
          "Trusted: Lean kernel, Mathlib. orthonormalize/complete_basis/direct_sum/standard_representation have no exact model (float thresholds): correspondence/oracles only.", "6 C17"),
@@ -43,7 +43,7 @@ CHECKS = {
          "FFT path = dense path, alpha-orthogonality, inverse normalisation pairs, admissibility of completed resolutions and exactness of the beta quadrature proved for all sizes; FromS2Grid∘ToS2Grid = id, ToS2Grid∘FromS2Grid = id on band-limited signals, truncation/padding between band limits and S2Activation with a linear activation proved WITHOUT hypothesis for every lmax <= 11, every admissible resolution (res_beta = 2b >= 2(lmax+1), res_alpha >= 2 lmax + 1, both code paths), the three normalisations and every coefficient vector (Props/C11Leg.lean); beyond lmax = 11 the round trip keeps the named hypothesis KRExact (checked numerically per configuration); SO3Grid round trip from grid orthonormality of D (hypothesis, checked numerically).",
          "Trusted: Lean kernel, Mathlib, torch.fft = DFT, translator T5 (an interpreter for the 8 FX ops o3.Legendre emits; the lifted table is compared with the running module on the grid each run, 1e-11) and its lifting of float coefficients to (n/d)sqrt(r)/sqrt(pi). That P*sha are the spherical harmonics of the grid points (ToS2Grid = evaluation of the signal) is checked on the real code against o3.spherical_harmonics, not proved.", "6 C11"),
  "C18": ("proof", "C", "Lean theorems (linearity, rotation invariance of signal evaluation from equivariance+orthogonality, interpolation algebra, irreps formula) + oracles on the real SphericalTensor",
-         "Algebraic clauses proved for all sizes with spherical harmonics as an abstract equivariant map (C05); signal_on_grid, with_peaks_at, sum_of_diracs, norms compared on the real code. find_peaks has no model (exercised only).",
+         "Algebraic clauses proved for all sizes with spherical harmonics as an abstract equivariant map (C05); signal_on_grid = signal_xyz at the grid points is a theorem without hypothesis for lmax <= 8 (Props/C18Grid.lean glues the SphericalTensor model to C11's toS2Grid_evaluates_signal: the model of ToS2Grid with the Legendre table regenerated from o3.Legendre returns the values of the signal whose harmonics are the polynomials regenerated from _spherical_harmonics) and is also compared on the real code, as are with_peaks_at, sum_of_diracs, norms. find_peaks has no model (exercised only).",
          "find_peaks (scipy peak search) is not applicable to this technique: exercised near poles, nothing proved.", "6 C18"),
  "C15": ("other", "B", "typed dataflow IR with a Lean soundness theorem (well-typed programs are equivariant / translation invariant / permutation equivariant / batch separable given equivariant primitives) + recorded dataflow of real forward passes + direct oracles",
          "Soundness of the typing discipline proved in Lean; each network's recorded module-call dataflow is type-checked; equivariance, translation, relabelling, batch separation and cutoff oracles run on the real models with shims for torch_scatter/torch_cluster.",
